@@ -3,10 +3,15 @@
                                                                       at the first yylex.Error call; kind = eof|invalid|escape|unterminated|unexpected)
    stream `parse`  -> `ok <canonical dump of the AST>` | `err`
    stream `print`  -> `ok <hex of q.String()>` | `err`
+   stream `refparse` -> as `parse`, answered by the hand-written reference parser (Model/RefTermParser.lean:
+                      tokenize + precedence climbing) instead of the LALR tables
+   stream `selfcheck` -> RefTerm.selfCheck: the reference parser's AST is Printable, its print lexes to the printed tokens and
+                      parses back to itself (debugging aid, not compared)
    stream `tokens` -> the token list of the lexer alone (debugging aid, not compared)
    answers starting with `?` = not modelled (fuel), `!` = the model hit a Go panic / unknown production -/
 import Gojq.Model.Parse
 import Gojq.Model.Printer
+import Gojq.Model.RefTermParser
 import Driver.Common
 open Gojq Gojq.Lexer Gojq.Parse Gojq.LALR
 
@@ -62,9 +67,14 @@ def printLine (line : String) : String := withSrc line fun src =>
   | .ok none => "err"
   | .error e => e
 
+def refparseLine (line : String) : String := withSrc line fun src =>
+  match RefTerm.refParse src with
+  | some p => "ok " ++ dump (RefTerm.astProgram p)
+  | none => "err"
+
 def tokensLine (line : String) : String := withSrc line fun src =>
   " ".intercalate ((lexAll (src.length + 2) (LState.init src)).map fun (ty, lv, off) =>
     s!"{ty}:{hexOf lv.token}:{lv.operator}@{off}")
 
 def main (args : List String) : IO UInt32 :=
-  Driver.main [("lex", lexLine), ("parse", parseLine), ("print", printLine), ("tokens", tokensLine)] args
+  Driver.main [("lex", lexLine), ("parse", parseLine), ("print", printLine), ("refparse", refparseLine), ("selfcheck", fun l => withSrc l RefTerm.selfCheck), ("tokens", tokensLine)] args
